@@ -14,6 +14,9 @@ HARNESSES = [
          deadline={"thorough": 600}, env=_ENV),
     # concurrent half: 2-4 threads on one tracer over a LIFO parent, every interleaving at the tracer mutex / atomic counter
     dict(name="tracemt", src=["tracemt.c"], variant="sched", wrap=True, deadline={"quick": 150, "thorough": 1500}),
+    # free-running ThreadSanitizer twin of the scenario bodies (DESIGN 4.5): no wrapping, OS scheduler, decides nothing;
+    # discharges VSX's proviso that there is no unsynchronised access between schedule points
+    dict(name="tracemt-tsan", src=["tracemt.c"], variant="tsan", cflags=["-DVSX_FREE"], tiers=["thorough"], deadline={"thorough": 600}),
 ]
 ASSUMPTIONS = [
     "concurrent half (tracemt): 2-4 threads (acquire/realloc/release, acquire/release, calloc/dump/release) on one BYTES or STACKS tracer over a LIFO parent that forces address reuse across threads; preemption bound 2-3 (quick) / 3-4 (thorough); a concurrent observer is only required to see a value between what it holds itself and what all threads can hold; equality is demanded at quiescence; sequentially consistent interleavings (DESIGN 4.4)",
